@@ -144,6 +144,7 @@ def step1 (s : St) (line : String) : St × String :=
   | "ballast" :: _ => (s, "ok")
   | "substids" :: _ => (s, "ok")
   | "satrace" :: _ => (s, "ok")
+  | "bigcount" :: _ => (s, "ok")
   | ["dropballast"] => (s, "ok")
   | ["nodes"] => (s, "-")
   | "mgr" :: rest =>
